@@ -125,8 +125,9 @@ from eqlvc.libmodel import val_isa, str_const  # noqa: E402
 
 
 class ExtractSelected(LibModel):
-    """predicate.extract_selected_variable_and_expression: a supplied iterable domain is replaced by the LAZY filter of
-    itself by isinstance(., T) (subclasses included), the variable is built over that domain with type T, and the field
+    """predicate.extract_selected_variable_and_expression: for a supplied iterable domain the variable's domain source is the
+    LAZY filter of it by isinstance(., T) (subclasses included) - a source of its own, the From object that was passed in is
+    left as it is -, the variable is built over that domain with type T, and the field
     constraints are handed to properties_to_expression_tree unchanged (C13; laziness for C07)."""
     qual = 'predicate:extract_selected_variable_and_expression'
     cls = None
@@ -270,8 +271,15 @@ class ExtractSelected(LibModel):
                    z3.BoolVal(var is not None and len(var['args']) >= 2 and isinstance(var['args'][1], C)
                               and var['args'][1].v == Ref('class', 'T')), case=tag)
         src = var['kwargs'].get('_domain_source_') if var else None
+        if st.ghost['dom_case'] != 'none':
+            # the From object the caller passed in may be handed to other terms as well (and is the caller's object): it is
+            # read, never written
+            kept = st.ghost['from']['domain']
+            eng.oblige(st, "C13/extract/the-From-object-that-was-passed-in-is-left-as-it-is",
+                       z3.BoolVal(isinstance(kept, Obj) and kept.kind == 'userdomain'), case=tag)
         if st.ghost['dom_case'] == 'iterable':
-            d = st.ghost['from']['domain'] if isinstance(src, Obj) and src.kind == 'from' else None
+            d = st.ghost['from']['domain'] if isinstance(src, Obj) and src.kind == 'from' else \
+                (src.data.get('domain') if isinstance(src, Obj) and src.kind == 'from_new' else None)
             ok = isinstance(d, Obj) and d.kind == 'filtered' and isinstance(d.data['of'], Obj) and d.data['of'].kind == 'userdomain'
             eng.oblige(st, "C13/extract/domain-is-a-lazy-filter-of-the-supplied-iterable", z3.BoolVal(bool(ok)), case=tag)
             if ok:
